@@ -2,6 +2,7 @@ package harness
 
 import (
 	"os"
+	"regexp"
 	"context"
 	"crypto/sha256"
 	"encoding/hex"
@@ -139,7 +140,8 @@ func NewEnv(sim *simrt.Sim, sch *Schema, property string) (*Env, error) {
 	grep := os.Getenv("VERIF_GREP")
 	sim.Net.Tap = func(l *simrt.Link, dir int, phase string, idx int, f []byte) {
 		if phase == "send" {
-			fmt.Fprintf(e.digest, "F %s %d %d %s", l.Name, dir, idx, f)
+			// error texts may print pointers (%v of a *int): not part of the behaviour
+			fmt.Fprintf(e.digest, "F %s %d %d %s", l.Name, dir, idx, rePtr.ReplaceAll(f, []byte("0xPTR")))
 		}
 		if grep != "" && strings.Contains(string(f), grep) {
 			e.Logf("FRAME %s %s dir=%d #%d: %s", phase, l.Name, dir, idx, trimStr(string(f), 1500))
@@ -162,8 +164,10 @@ func (e *Env) NextSeq() int { e.seq++; return e.seq }
 
 func (e *Env) Now() time.Duration { return time.Since(e.t0) }
 
+var rePtr = regexp.MustCompile(`0x[0-9a-f]{6,16}`)
+
 func (e *Env) Logf(format string, a ...any) {
-	l := fmt.Sprintf(format, a...)
+	l := rePtr.ReplaceAllString(fmt.Sprintf(format, a...), "0xPTR")
 	fmt.Fprintf(e.digest, "L %s\n", l)
 	if len(e.logLines) < 4000 {
 		e.logLines = append(e.logLines, fmt.Sprintf("[%d t=%v] %s", e.Sim.Stats.Steps, e.Now(), l))
